@@ -501,6 +501,22 @@ func NearNumberArrays() *TextSet {
 		for _, a := range gen.Arrays(2, []V{1.0, 1.01, 2.0, 3.0}) {
 			out = append(out, map[string]interface{}{"k": a}, []interface{}{a, 1.0})
 		}
+		// a container that changes only within the precision, between two neighbours that may change for real
+		for _, in := range []V{[]interface{}{1.0}, []interface{}{1.01}, []interface{}{2.0}, map[string]interface{}{"k": 1.0}, map[string]interface{}{"k": 1.01}} {
+			for _, x := range []V{nil, 1.0, 5.0} {
+				for _, y := range []V{nil, 1.0, 5.0} {
+					a := []interface{}{}
+					if x != nil {
+						a = append(a, x)
+					}
+					a = append(a, in)
+					if y != nil {
+						a = append(a, y)
+					}
+					out = append(out, a)
+				}
+			}
+		}
 		return NewTextSet(out)
 	})
 }
